@@ -3,6 +3,7 @@ From Coq Require Import List NArith Bool.
 From Coq.Strings Require Import Byte.
 Import ListNotations.
 From SV Require Import Text G_codes C05_Model Codes_Lemmas C17_Model G_gc_ids G_gc_prt G_gc_all C17_Lemmas.
+From SV Require Import C17_Convert C17_GenSpec C17_ConvSpec C17_ConvLemmas G_gc_prt_text G_gc_conv_all C17_ConvTables.
 Open Scope N_scope.
 
 (* the set of shipped table ids is the set defined by NCBI's gc.prt *)
@@ -44,3 +45,91 @@ Print Assumptions C17_codes_are_iupac.
 Example C17_witness : In G_gcrec_1.rec all_tables /\ expand 737 = [11; 15] /\ lookupNb 737 (t_tt G_gcrec_1.rec) = None
   /\ memN 737 (t_astops G_gcrec_1.rec) = true.
 Proof. exact (conj (or_introl eq_refl) (conj eq_refl (conj eq_refl eq_refl))). Qed.
+
+(* ---------------------------------------------------------------- the generator convert.py (gc.prt -> gc.json) *)
+
+(* finite, one instance per shipped table: the Gallina model of convert.py, run inside Coq on the text of gc.prt and on
+   sugar.data.CODES, calls generate_gc for exactly the ids of gc.json in the order of gc.json, and the n-th call returns
+   the n-th table of gc.json (fields whose order the script fixes compared in order, the set-iteration ones as sets) *)
+Theorem C17_convert_reproduces_json : forall n t aa sc,
+  nth_error all_tables n = Some t -> nth_error all_lines n = Some (aa, sc) ->
+  exists es en g, emitted (lines_of prt_text []) st0 = inr es /\ map e_id es = json_ids /\
+    nth_error es n = Some en /\ e_id en = t_key t /\ generate_gc CODES en = inr g /\ gc_json_eqb g t aa sc = true.
+Proof. exact convert_tables. Qed.
+Print Assumptions C17_convert_reproduces_json.
+
+(* unbounded, for ANY ncbieaa / sncbieaa lines of at least 64 characters (any base table) and any alphabet whose
+   expansions are base codons: generate_gc raises nothing; starts / stops / ttinv / astarts / astops are the functions
+   of the 64 base entries characterised below; tt answers, for every string c: the base entry if c is a base codon,
+   else the common amino acid of all expansions if c is a codon over the alphabet, else nothing *)
+Theorem C17_generate_gc_spec : forall codes ac id_ name aas sc,
+  conv_codes_ok codes ac = true -> (64 <= length aas)%nat -> (64 <= length sc)%nat ->
+  exists tt',
+    generate_gc_ac codes ac id_ name aas sc
+    = inr {| g_id := id_; g_name := name; g_aa := aas; g_sc := sc; g_tt := tt'; g_ttinv := ttinv_of (base_tt aas);
+             g_starts := flagged x4d sc; g_astarts := amb_marked codes ac (base_tt aas) (flagged x4d sc);
+             g_stops := flagged x2a sc; g_astops := amb_marked codes ac (base_tt aas) (flagged x2a sc) |}
+    /\ forall c, lookupS c tt' = match lookupS c (base_tt aas) with
+                                 | Some a => Some a
+                                 | None => if memS c (product3 ac) then amb_val codes (base_tt aas) c else None
+                                 end.
+Proof. exact gen_spec. Qed.
+Print Assumptions C17_generate_gc_spec.
+
+(* a line shorter than 64 characters: IndexError (aas[i] / special_codons[i]) *)
+Theorem C17_generate_gc_index_error : forall codes ac id_ name aas sc,
+  (length aas < 64)%nat \/ (length sc < 64)%nat -> generate_gc_ac codes ac id_ name aas sc = inl (bs "IndexError"%bs).
+Proof. exact gen_index_error. Qed.
+Print Assumptions C17_generate_gc_index_error.
+
+(* the property's clause: an entry iff all expansions encode the same amino acid, and then that amino acid *)
+Theorem C17_entry_iff_expansions_agree : forall codes base c a,
+  forallb (fun e => memkey e base) (expand3 codes c) = true ->
+  (amb_val codes base c = Some a <->
+   expand3 codes c <> [] /\ forall e, In e (expand3 codes c) -> lookupS e base = Some a).
+Proof. exact amb_val_iff. Qed.
+Print Assumptions C17_entry_iff_expansions_agree.
+
+(* the 64 base entries: codon number i of product('TCAG', repeat=3) gets character i of the ncbieaa line *)
+Theorem C17_base_entries : forall aas c a,
+  lookupS c (base_tt aas) = Some a <-> exists i, nth_error base_codons i = Some c /\ a = nth i aas x3f.
+Proof. exact base_tt_lookup. Qed.
+Print Assumptions C17_base_entries.
+
+(* starts / stops: exactly the base codons whose character of the sncbieaa line is M / * *)
+Theorem C17_starts_stops : forall f sc c,
+  In c (flagged f sc) <-> exists i, nth_error base_codons i = Some c /\ nth i sc x3f = f.
+Proof. exact flagged_In. Qed.
+Print Assumptions C17_starts_stops.
+
+(* astarts / astops: exactly the codons over the alphabet that are no base codon and have >= 1 start / stop expansion *)
+Theorem C17_ambiguous_sets : forall codes ac tt marked c,
+  In c (amb_marked codes ac tt marked)
+  <-> In c (product3 ac) /\ memkey c tt = false /\ exists e, In e (expand3 codes c) /\ In e marked.
+Proof. exact amb_marked_In. Qed.
+Print Assumptions C17_ambiguous_sets.
+
+(* ttinv: one row per amino acid that occurs, listing exactly the (unambiguous) codons with that amino acid, in order *)
+Theorem C17_ttinv_rows : forall tt a,
+  row a (ttinv_of tt) = map fst (filter (fun kv : str * byte => byte_eqb (snd kv) a) tt).
+Proof. exact ttinv_row. Qed.
+Print Assumptions C17_ttinv_rows.
+Theorem C17_ttinv_keys : forall tt, NoDup (map fst (ttinv_of tt)) /\
+  forall a, In a (map fst (ttinv_of tt)) <-> exists k, In (k, a) tt.
+Proof. exact ttinv_keys. Qed.
+Print Assumptions C17_ttinv_keys.
+
+(* sugar.data.CODES (regenerated) satisfies the side condition: the 27 shipped tables are instances *)
+Theorem C17_codes_instance : conv_codes_ok CODES (all_codes CODES) = true.
+Proof. exact codes_instance. Qed.
+Print Assumptions C17_codes_instance.
+
+Example C17_gen_witness :
+  conv_codes_ok w_codes (all_codes w_codes) = true /\ (64 <= length w_aas)%nat /\ (64 <= length w_sc)%nat /\
+  exists g, generate_gc_ac w_codes (all_codes w_codes) 1%N (bs "W"%bs) w_aas w_sc = inr g /\
+    lookupS (bs "CTR"%bs) (g_tt g) = Some x4c /\ lookupS (bs "TAR"%bs) (g_tt g) = Some x2a /\
+    lookupS (bs "TRA"%bs) (g_tt g) = Some x2a /\ lookupS (bs "ATR"%bs) (g_tt g) = None /\
+    g_astops g = [bs "TAR"%bs; bs "TGR"%bs; bs "TRA"%bs; bs "TRG"%bs; bs "TRR"%bs] /\
+    g_astarts g = [bs "ATR"%bs; bs "RTG"%bs; bs "RTR"%bs] /\
+    row x2a (g_ttinv g) = [bs "TAA"%bs; bs "TAG"%bs; bs "TGA"%bs].
+Proof. exact gen_witness. Qed.
